@@ -108,6 +108,8 @@ func lineKind(l string) string {
 		return "io"
 	case strings.HasPrefix(l, "cli "):
 		return "cli"
+	case strings.HasPrefix(l, "st "):
+		return "st"
 	}
 	return "other"
 }
